@@ -470,6 +470,18 @@ fn shapes<B: Backend>(seed: u64, tier: Tier) -> Vec<BytesCase> {
                 push("Secret", "rsa-wrong-modulus-public-as-secret".into(), p2.clone());
                 push("Public", "rsa-wrong-modulus-secret-as-public".into(), k2.clone());
             }
+            // moduli one bit / one byte beside the allowed sizes, and common other sizes
+            for (bits, der) in crate::keypool::odd_sizes() {
+                let pubder = public_bytes(ver, &der);
+                for kind in ["Secret", "PkeSecret"] {
+                    push(kind, format!("rsa-wrong-modulus-{bits}"), der.clone());
+                    push(kind, format!("rsa-wrong-modulus-{bits}-pem"), crate::props::c13::pem_encode("RSA PRIVATE KEY", &der));
+                }
+                for kind in ["Public", "PkePublic"] {
+                    push(kind, format!("rsa-wrong-modulus-{bits}"), pubder.clone());
+                    push(kind, format!("rsa-wrong-modulus-{bits}-pem"), crate::props::c13::pem_encode("PUBLIC KEY", &pubder));
+                }
+            }
         }
     }
     out
